@@ -372,8 +372,9 @@ pub struct PcInfo {
     pub chans: usize,
     pub payload: Payload,
     pub n: i64,
-    /// the output every schedule must produce (computed from the shape, independent of any run)
-    pub expected_lines: Option<Vec<String>>,
+    /// a program without tasks and channels that computes the same output and final value (the oracle
+    /// for "each value once, in order, equal to what was written")
+    pub seq_src: String,
 }
 
 /// Producer/consumer programs in which every channel has one writer and one reader and one thread
@@ -386,6 +387,7 @@ pub fn gen_pc(rng: &mut Rng) -> (String, PcInfo) {
     let spin_a = rng.range(0, 12);
     let spin_b = rng.range(0, 12);
     let mut s = String::from(PC_PRELUDE);
+    let mut q = String::from(PC_PRELUDE);
     let shape: &'static str;
     let (tasks, chans);
     match rng.below(5) {
@@ -402,6 +404,7 @@ pub fn gen_pc(rng: &mut Rng) -> (String, PcInfo) {
                 write!(s, "for i in {n} {{\n  let x = {}\n  keep.push(x)\n  c0.write(x)\n  spin({spin_b})\n  println(c1.read())\n}}\n", p.make("i")).unwrap();
             }
             writeln!(s, "keep.len()").unwrap();
+            write!(q, "for i in {n} {{\n  let x = {}\n  println({})\n}}\n{n}\n", p.make("i"), p.digest("x")).unwrap();
         }
         // main -> c0 -> task1 -> c1 -> task2 -> c2 -> main (scalars relayed between tasks)
         1 => {
@@ -412,6 +415,7 @@ pub fn gen_pc(rng: &mut Rng) -> (String, PcInfo) {
             write!(s, "task {{\n  for i in {n} {{\n    let x = c0.read()\n    c1.write({})\n    spin({spin_a})\n  }}\n}}\n", p.digest("x")).unwrap();
             write!(s, "task {{\n  for i in {n} {{\n    let y = c1.read()\n    spin({spin_b})\n    c2.write(y * 2 + i)\n  }}\n}}\n").unwrap();
             write!(s, "for i in {n} {{\n  let x = {}\n  keep.push(x)\n  c0.write(x)\n}}\nvar total = 0\nfor i in {n} {{\n  let z = c2.read()\n  println(z)\n  total = total + z\n}}\ntotal\n", p.make("i")).unwrap();
+            write!(q, "var total = 0\nfor i in {n} {{\n  let x = {}\n  let y = {}\n  let z = y * 2 + i\n  println(z)\n  total = total + z\n}}\ntotal\n", p.make("i"), p.digest("x")).unwrap();
         }
         // tasks are pure producers of scalars on their own channels; main consumes in a fixed pattern
         2 => {
@@ -429,6 +433,11 @@ pub fn gen_pc(rng: &mut Rng) -> (String, PcInfo) {
                 write!(s, "  let x{k} = c{k}.read()\n  println(\"c{k}:\" .. x{k})\n  total = total + x{k}\n").unwrap();
             }
             write!(s, "}}\ntotal\n").unwrap();
+            write!(q, "var total = 0\nfor i in {n} {{\n").unwrap();
+            for k in 0..tasks {
+                write!(q, "  let x{k} = i * {} + {k}\n  println(\"c{k}:\" .. x{k})\n  total = total + x{k}\n", k + 2).unwrap();
+            }
+            write!(q, "}}\ntotal\n").unwrap();
         }
         // the printing thread is a task; main feeds it (keeps payloads alive) and joins on a done channel
         3 => {
@@ -438,6 +447,7 @@ pub fn gen_pc(rng: &mut Rng) -> (String, PcInfo) {
             write!(s, "let c0: channel<{ty}> = channel()\nlet fin: channel<bool> = channel()\nlet keep: array<{ty}> = []\n", ty = p.ty()).unwrap();
             write!(s, "task {{\n  for i in {n} {{\n    let x = c0.read()\n    println({})\n    spin({spin_a})\n  }}\n  fin.write(true)\n}}\n", p.show("x")).unwrap();
             write!(s, "for i in {n} {{\n  let x = {}\n  keep.push(x)\n  spin({spin_b})\n  c0.write(x)\n}}\nfin.read()\n", p.make("i")).unwrap();
+            write!(q, "for i in {n} {{\n  let x = {}\n  println({})\n}}\ntrue\n", p.make("i"), p.show("x")).unwrap();
         }
         // a task produces heap payloads, keeps them alive and waits for main's acknowledgement before ending
         _ => {
@@ -447,7 +457,8 @@ pub fn gen_pc(rng: &mut Rng) -> (String, PcInfo) {
             write!(s, "let c0: channel<{ty}> = channel()\nlet ack: channel<bool> = channel()\n", ty = p.ty()).unwrap();
             write!(s, "task {{\n  let keep: array<{ty}> = []\n  for i in {n} {{\n    let x = {}\n    keep.push(x)\n    spin({spin_a})\n    c0.write(x)\n  }}\n  ack.read()\n}}\n", p.make("i"), ty = p.ty()).unwrap();
             write!(s, "for i in {n} {{\n  spin({spin_b})\n  let x = c0.read()\n  println({})\n}}\nack.write(true)\n{n}\n", p.show("x")).unwrap();
+            write!(q, "for i in {n} {{\n  let x = {}\n  println({})\n}}\n{n}\n", p.make("i"), p.show("x")).unwrap();
         }
     }
-    (s, PcInfo { shape, tasks, chans, payload: p, n, expected_lines: None })
+    (s, PcInfo { shape, tasks, chans, payload: p, n, seq_src: q })
 }
